@@ -168,6 +168,98 @@ def check_errno(ctx, rep, pid):
         rep.ok("%s.errno" % pid, "errno-after-failure", "every errno test in the %d inspected functions is on the failure side of the call it belongs to (detector verified on witness/selfcheck.c)" % n, [])
 
 
+HANDOFF_OK = {
+    # functions whose contract is to return holding a lock (one reason each)
+    "_before_fork": "fork bracket: released by after_fork_parent / after_fork_child",
+    "_lock": "exported lock API of the structure (cds_wfs_pop_lock, cds_wfcq_dequeue_lock, cds_lfs_pop_lock)",
+    "compat_futex_noasync": "may-analysis artefact: the path on which pthread_mutex_lock *failed* returns without unlocking",
+}
+
+
+def held_at_return(ctx, lib, mode):
+    """{function name: locks that may still be held at a return} for one module (cached)"""
+    from . import lockorder
+    key = ("_held_at_return", lib, mode)
+    c = ctx.__dict__.setdefault("_lint_cache", {})
+    if key not in c:
+        g = lockorder.LibGraph({lib: ctx.mod(lib, mode)})
+        summ = g.summaries()
+        c[key] = {n: set(v[0]) for n, v in summ.items() if v[0]}
+    return c[key]
+
+
+def check_lockpair(ctx, rep, pid):
+    import os
+    hs = held_at_return(ctx, "w_selfcheck", "perfn")
+    if "w_selfcheck_missing_unlock" not in hs or "w_selfcheck_paired_unlock" in hs:
+        raise Broken("held-at-return detector no longer matches its examples in witness/selfcheck.c")
+    bad = []
+    n = 0
+    for path, name in sorted(rep.fn_seen):
+        parts = os.path.basename(path).split(".")
+        if len(parts) < 3 or parts[0].startswith("w_"):
+            continue
+        lib, mode = ".".join(parts[:-2]), parts[-2]
+        if mode != "flat":
+            continue        # internal helpers legitimately return holding their caller's lock (they drop and re-take it); decided on the exported roots
+        n += 1
+        held = set(x for x in (held_at_return(ctx, lib, mode).get(name) or ()) if not x.startswith("arg") and x != "?")
+        if not held:
+            continue
+        if any(name.endswith(k) or name == k for k in HANDOFF_OK):
+            continue
+        bad.append((lib, name, held))
+    for lib, name, held in bad:
+        rep.bad("%s.lockpair" % pid, "%s.%s" % (lib, name), "%s can return with %s still held (an unlock is missing on some path): the next thread that needs the lock - a concurrent caller of the same "
+                "function, a helper, the fork handlers - blocks for ever" % (name, sorted(held)), [name])
+    if not bad:
+        rep.ok("%s.lockpair" % pid, "locks-released", "none of the %d inspected functions can return holding a lock (lock-handoff functions excepted; detector verified on witness/selfcheck.c)" % n, [])
+
+
+def undef_uses(f):
+    """calls / stores / branches whose operand is an undefined value (a variable read before any assignment reaches it)"""
+    out = []
+    for i in f.all_insts():
+        if i.op in ("call", "icall", "store", "ret", "icmp", "switch"):
+            for a in i.args:
+                if a and a[0] == "undef":
+                    if i.op == "call" and i.callee and i.callee.startswith("llvm."):
+                        continue
+                    out.append(i)
+                    break
+    return out
+
+
+def check_undef(ctx, rep, pid):
+    import os
+    w = ctx.mod("w_selfcheck", "perfn")
+    pos = w.fn("w_selfcheck_use_before_def")
+    if pos is None or not undef_uses(pos):
+        raise Broken("use-before-definition detector no longer matches its example in witness/selfcheck.c")
+    bad = []
+    n = 0
+    for path, name in sorted(rep.fn_seen):
+        parts = os.path.basename(path).split(".")
+        if len(parts) < 3 or parts[0].startswith("w_"):
+            continue
+        lib, mode = ".".join(parts[:-2]), parts[-2]
+        f = ctx.mod(lib, mode).fn(name)
+        if f is None or not f.blocks:
+            continue
+        n += 1
+        for i in undef_uses(f):
+            bad.append((lib, f, i))
+    seen = set()
+    for lib, f, i in bad:
+        k = (i.origin_fn, i.line)
+        if k in seen:
+            continue
+        seen.add(k)
+        rep.bad("%s.undef" % pid, "%s.%s@%d" % (lib, i.origin_fn, i.line), "%s uses a variable before any assignment reaches it (the operand is undefined)" % (i.callee or i.op), [i.where()])
+    if not bad:
+        rep.ok("%s.undef" % pid, "no-use-before-def", "no inspected function (%d) passes / stores / tests an undefined value (detector verified on witness/selfcheck.c)" % n, [])
+
+
 def check(ctx, rep, pid):
     # positive example first
     try:
